@@ -98,7 +98,11 @@ impl<'a> Interp<'a> {
     pub fn new(h: &Hist, flags: &'a Flags) -> Interp<'a> {
         Interp {
             sim: Sim::new(&h.cfg),
-            model: Model::new(&h.cfg),
+            model: {
+                let mut m = Model::new(&h.cfg);
+                m.strict_resub = flags.strict_resub;
+                m
+            },
             views: Vec::new(),
             mirror: VecDeque::new(),
             pushed: Vec::new(),
@@ -137,6 +141,15 @@ impl<'a> Interp<'a> {
     fn live_serial(&self, slot: usize) -> Option<usize> {
         let s = self.slots.get(slot)?.cur?;
         if self.sim.conns[s].state == ConnState::Live && self.model.conns[s].live {
+            // a well-behaved client does nothing more on a connection whose link already failed
+            // (the Disconnect signal is on its way): anything pushed now could be processed
+            // before that signal and let it hit a recycled id (known finding R5)
+            if self.flags.avoid.recycled_id
+                && self.strict(slot)
+                && self.mirror.iter().any(|e| matches!(e, Ev::DisconnectOf(x) if *x == s))
+            {
+                return None;
+            }
             Some(s)
         } else {
             None
@@ -167,6 +180,17 @@ impl<'a> Interp<'a> {
             }
         }
         v
+    }
+
+    /// The end of this connection is already on its way to the router
+    fn end_pending(&self, serial: usize) -> bool {
+        let id = &self.model.conns[serial].client_id;
+        self.pushed[serial].iter().any(|p| matches!(p, MPacket::Disconnect))
+            || self.mirror.iter().any(|e| match e {
+                Ev::DisconnectOf(s) => *s == serial,
+                Ev::Connect(s) => self.model.conns[*s].client_id == *id,
+                _ => false,
+            })
     }
 
     fn next_pkid(&mut self, slot: usize) -> u16 {
@@ -373,6 +397,12 @@ impl<'a> Interp<'a> {
                     self.stats.skipped += 1;
                     return Ok(());
                 };
+                // known finding R5: a Disconnect signal that reaches the router after it already
+                // removed the connection acts on whoever holds the recycled id by then
+                if self.flags.avoid.recycled_id && self.strict(*c) && self.end_pending(s) {
+                    self.stats.excluded_known += 1;
+                    return Ok(());
+                }
                 if self.sim.disconnect_event(s) {
                     self.mirror.push_back(Ev::DisconnectOf(s));
                 }
@@ -594,7 +624,28 @@ impl<'a> Interp<'a> {
             return Ok(());
         }
         let spec = self.specs[c].clone();
-        let alias_max = if spec.v5 { alias_max } else { 0 };
+        let mut alias_max = if spec.v5 { alias_max } else { 0 };
+        if alias_max > 0 && !clean && self.flags.avoid.alias_wildcard && self.strict(c) {
+            // region R6 through the back door: resuming a session that holds a wildcard
+            // subscription on a connection that enables broker topic aliases
+            let id = &spec.id;
+            let wild_saved = self
+                .model
+                .sessions
+                .get(id)
+                .is_some_and(|s| s.subs.iter().any(|x| crate::topic::ref_has_wildcards(&x.filter)));
+            let wild_live = self.model.conns.iter().any(|mc| {
+                mc.client_id == *id
+                    && mc.live
+                    && !mc.clean
+                    && (mc.subs.iter().any(|x| x.end.is_none() && crate::topic::ref_has_wildcards(&x.filter))
+                        || self.pushed[mc.serial].iter().any(|p| matches!(p, MPacket::Subscribe { filters, .. } if filters.iter().any(|(f, _)| crate::topic::ref_has_wildcards(f)))))
+            });
+            if wild_saved || wild_live {
+                self.stats.excluded_known += 1;
+                alias_max = 0;
+            }
+        }
         let will_msg = will.map(|w| {
             let serial = self.model.next_serial();
             let payload = make_payload(serial, w.size.max(format!("{serial}:").len()));
@@ -812,7 +863,8 @@ impl<'a> Interp<'a> {
                         ensure!(
                             !mc.accepted,
                             "admission:valid_connection_rejected",
-                            "connection of client {:?} was not registered although id is valid and only {} of {} connections are in use",
+                            "connection (attempt #{}) of client {:?} was not registered although id is valid and only {} of {} connections are in use",
+                            serial,
                             mc.client_id,
                             self.model.live_count(),
                             self.model.cfg.max_conn
@@ -831,6 +883,9 @@ impl<'a> Interp<'a> {
     }
 
     fn apply(&mut self, ev: Ev) {
+        if std::env::var_os("VERIF_TRACE").is_some() {
+            eprintln!("  apply {ev:?} live={:?}", self.model.conns.iter().filter(|c| c.live).map(|c| c.serial).collect::<Vec<_>>());
+        }
         match ev {
             Ev::Connect(serial) => {
                 let old = self.model.live_conn_of_client(&self.model.conns[serial].client_id.clone());
